@@ -5,13 +5,19 @@
 use std::sync::atomic::{AtomicU64, AtomicUsize, Ordering::*};
 
 const RESULT_CAP: usize = 4 << 20;
-const SCHED_CAP: usize = 4 << 20; // entries (tid:u32,count:u32) = 8 bytes each
+const SCHED_CAP: usize = 2 << 20; // entries (from, op, step, to): 4 x u32
 const OFF_DONE: usize = 0;
 const OFF_RLEN: usize = 8;
 const OFF_SLEN: usize = 16;
+const OFF_BLEN: usize = 24;
+const OFF_PLEN: usize = 32;
 const OFF_RESULT: usize = 64;
 const OFF_SCHED: usize = OFF_RESULT + RESULT_CAP;
-const TOTAL: usize = OFF_SCHED + SCHED_CAP * 8;
+const OFF_BUG: usize = OFF_SCHED + SCHED_CAP * 16;
+const BUG_CAP: usize = 1 << 16;
+const OFF_PANIC: usize = OFF_BUG + BUG_CAP * 8;
+const PANIC_CAP: usize = 4096;
+const TOTAL: usize = OFF_PANIC + PANIC_CAP;
 
 static BASE: AtomicUsize = AtomicUsize::new(0);
 
@@ -39,26 +45,26 @@ pub fn reset() {
     word(OFF_DONE).store(0, SeqCst);
     word(OFF_RLEN).store(0, SeqCst);
     word(OFF_SLEN).store(0, SeqCst);
+    word(OFF_BLEN).store(0, SeqCst);
+    word(OFF_PLEN).store(0, SeqCst);
 }
 
-/// Child: append one scheduling decision (run-length encoded).
-pub fn sched_push(tid: u32) {
+/// Child: append one context switch: thread `from`, at position (op, step), hands over to `to`.
+pub fn sched_push(from: u32, op: u32, step: u32, to: u32) {
     let base = BASE.load(Relaxed);
     if base == 0 {
         return;
     }
     let n = word(OFF_SLEN).load(Relaxed) as usize;
+    if n >= SCHED_CAP {
+        return;
+    }
     unsafe {
         let arr = (base + OFF_SCHED) as *mut u32;
-        if n > 0 && *arr.add((n - 1) * 2) == tid && *arr.add((n - 1) * 2 + 1) < u32::MAX {
-            *arr.add((n - 1) * 2 + 1) += 1;
-            return;
-        }
-        if n >= SCHED_CAP {
-            return;
-        }
-        *arr.add(n * 2) = tid;
-        *arr.add(n * 2 + 1) = 1;
+        *arr.add(n * 4) = from;
+        *arr.add(n * 4 + 1) = op;
+        *arr.add(n * 4 + 2) = step;
+        *arr.add(n * 4 + 3) = to;
     }
     word(OFF_SLEN).store(n as u64 + 1, Release);
 }
@@ -90,9 +96,51 @@ pub fn read_result() -> Option<String> {
 }
 
 /// Parent: read the schedule recorded so far.
-pub fn read_sched() -> Vec<(u32, u32)> {
+pub fn read_sched() -> Vec<(u32, u32, u32, u32)> {
     let n = word(OFF_SLEN).load(SeqCst) as usize;
     let base = BASE.load(Relaxed);
     let arr = (base + OFF_SCHED) as *const u32;
-    (0..n).map(|i| unsafe { (*arr.add(i * 2), *arr.add(i * 2 + 1)) }).collect()
+    (0..n).map(|i| unsafe { (*arr.add(i * 4), *arr.add(i * 4 + 1), *arr.add(i * 4 + 2), *arr.add(i * 4 + 3)) }).collect()
+}
+
+/// Child: record that the n-th buggify call fired (survives a crash).
+pub fn bug_push(call_no: u64) {
+    let base = BASE.load(Relaxed);
+    if base == 0 {
+        return;
+    }
+    let n = word(OFF_BLEN).load(Relaxed) as usize;
+    if n >= BUG_CAP {
+        return;
+    }
+    unsafe { *((base + OFF_BUG) as *mut u64).add(n) = call_no };
+    word(OFF_BLEN).store(n as u64 + 1, Release);
+}
+
+pub fn read_bug() -> Vec<u64> {
+    let n = word(OFF_BLEN).load(SeqCst) as usize;
+    let base = BASE.load(Relaxed);
+    (0..n).map(|i| unsafe { *((base + OFF_BUG) as *const u64).add(i) }).collect()
+}
+
+/// Child: record the first panic (location and message) as soon as it happens.
+pub fn panic_note(s: &str) {
+    let base = BASE.load(Relaxed);
+    if base == 0 || word(OFF_PLEN).load(SeqCst) != 0 {
+        return;
+    }
+    let b = s.as_bytes();
+    let n = b.len().min(PANIC_CAP);
+    unsafe { std::ptr::copy_nonoverlapping(b.as_ptr(), (base + OFF_PANIC) as *mut u8, n) };
+    word(OFF_PLEN).store(n as u64, SeqCst);
+}
+
+pub fn read_panic() -> Option<String> {
+    let n = word(OFF_PLEN).load(SeqCst) as usize;
+    if n == 0 {
+        return None;
+    }
+    let base = BASE.load(Relaxed);
+    let bytes = unsafe { std::slice::from_raw_parts((base + OFF_PANIC) as *const u8, n) };
+    Some(String::from_utf8_lossy(bytes).into_owned())
 }
